@@ -356,6 +356,42 @@ pub mod stdspec {
     pub assume_specification [isize::saturating_sub] (a: isize, b: isize) -> (r: isize)
         ensures (a - b > isize::MAX ==> r == isize::MAX), (a - b < isize::MIN ==> r == isize::MIN),
                 (isize::MIN <= a - b <= isize::MAX ==> r == a - b);
+//# section: stdspec-char-class
+    // TRUSTED: char::is_ascii_alphanumeric / is_ascii_digit are the ASCII ranges the std docs list.
+    pub open spec fn ascii_alnum(c: char) -> bool { ('a' <= c && c <= 'z') || ('A' <= c && c <= 'Z') || ('0' <= c && c <= '9') }
+    pub open spec fn ascii_digit(c: char) -> bool { '0' <= c && c <= '9' }
+    pub assume_specification [char::is_ascii_alphanumeric] (c: &char) -> (b: bool) ensures b == ascii_alnum(*c);
+    pub assume_specification [char::is_ascii_digit] (c: &char) -> (b: bool) ensures b == ascii_digit(*c);
+//# section: stdspec-present-chars
+    // PRESENTATION stand-ins (Verus has no specification for str::Chars adapters, nor for format!).  Each stands for
+    // one std expression, named in its comment; the meaning relied on is std's documented one and is ASSUMED.
+    // `S.chars().filter(F).collect::<String>()`: every char of the result satisfies F (stated through F's own
+    // postcondition) and occurs in S; a text whose chars all satisfy F is kept whole.
+    #[verifier::external_body]
+    pub fn chars_filter_collect<F: Fn(&char) -> bool>(s: &str, f: F) -> (res: String)
+        requires forall|c: char| f.requires((&c,)),
+        ensures forall|i: int| 0 <= i < res@.len() ==> f.ensures((&#[trigger] res@[i],), true),
+                forall|i: int| 0 <= i < res@.len() ==> s@.contains(#[trigger] res@[i]),
+                (forall|i: int| 0 <= i < s@.len() ==> f.ensures((&#[trigger] s@[i],), true)) ==> res@ == s@,
+    { unimplemented!() }
+    // `S.chars().filter(F).take(N).collect::<String>()`: as above, and at most N chars.
+    #[verifier::external_body]
+    pub fn chars_filter_take_collect<F: Fn(&char) -> bool>(s: &str, f: F, n: usize) -> (res: String)
+        requires forall|c: char| f.requires((&c,)),
+        ensures forall|i: int| 0 <= i < res@.len() ==> f.ensures((&#[trigger] res@[i],), true),
+                forall|i: int| 0 <= i < res@.len() ==> s@.contains(#[trigger] res@[i]),
+                res@.len() <= n,
+    { unimplemented!() }
+    // `S.chars().next()`: the first char of S, if any.
+    #[verifier::external_body]
+    pub fn first_char(s: &String) -> (r: Option<char>)
+        ensures s@.len() == 0 ==> r is None, s@.len() > 0 ==> r == Some(s@[0]),
+    { unimplemented!() }
+    // `format!("P{S}")` with a literal prefix P and one Display placeholder for a String: P followed by S.
+    #[verifier::external_body]
+    pub fn fmt_prefix(p: &'static str, s: &String) -> (r: String)
+        ensures r@ == p@ + s@,
+    { unimplemented!() }
 //# section: stdspec-drop
     pub assume_specification<T> [core::mem::drop::<T>] (x: T);
 //# section: stdspec-end
